@@ -38,6 +38,7 @@ func legacyTestBad(l *L, lt *LT) {
 	lt.F = 2 // want IMM01 dep=d/legacy/l_test.go
 }
 `}}},
+		{Path: "ex.com/m/zz", Files: []prog.File{{Name: "zz.go", Src: "package zz\n\ntype Iface interface{ Do() }\n"}}},
 		{Path: "ex.com/m/d", Files: []prog.File{
 			{Name: "x.go", Src: `package d
 
@@ -52,6 +53,10 @@ func NewT() *T { return &T{} }
 // @testonly
 func Helper() int { return 0 }
 
+// Impl names a package this file does not import; the test file and the generated file do.
+// @implements zz.Iface
+type Impl struct{} // want IMPL01 dep=d/x.go
+
 func bad(x *T, g *G) {
 	x.F = 1 // want IMM01 dep=d/x.go
 	g.F = 1 // want IMM01 dep=d/zz_gen.go
@@ -60,6 +65,8 @@ func bad(x *T, g *G) {
 }
 `},
 			{Name: "zz_gen.go", Src: `package d
+
+import _ "ex.com/m/zz"
 
 // G is generated and immutable.
 // @immutable
@@ -72,6 +79,10 @@ func genBad(g *G, x *T) {
 }
 `},
 			{Name: "x_test.go", Src: `package d
+
+import zz "ex.com/m/zz"
+
+var _ zz.Iface
 
 // TT is declared in a test file.
 // @immutable
